@@ -188,12 +188,14 @@ Definition well_scoped (m : module) : bool :=
   end.
 
 (* ------------------------------------------------------------------------------------------ *)
-(* The class of the known finding: a captured local that is not the top stack slot at the end   *)
-(* of a loop-body scope stays open  (CloseUpvalue closes only from the top slot and does not  *)
-(* pop).  [leaky m]: some Repeat / ForEach body declares a variable that a closure inside it   *)
+(* The class of the former finding R-2 (repaired by d723a2c: CloseUpvalue names its local): a    *)
+(* captured local that is not the top stack slot at the end of a loop-body scope stayed open    *)
+(* (CloseUpvalue closed only from the top slot and does not pop).  The checker no longer uses  *)
+(* the class; Properties/C01.v shows that the repaired witnesses lie in it.                    *)
+(* [leaky m]: some Repeat / ForEach body declares a variable that a closure inside it          *)
 (* mentions, and either two such variables, or something in the body leaves a value on the     *)
 (* stack (a statement-level call, a non-empty Array, an inner loop with a captured variable).  *)
-(* A static over-approximation, used only to LABEL a disagreement (code 11), never to accept.  *)
+(* A static over-approximation, formerly used to LABEL a disagreement (code 11).              *)
 (* ------------------------------------------------------------------------------------------ *)
 Section Leaky.
   Fixpoint cards_any (f : card -> bool) (l : list card) : bool :=
@@ -311,10 +313,10 @@ Definition leaky (m : module) : bool :=
   end.
 
 (* ------------------------------------------------------------------------------------------ *)
-(* The class of the finding R-4: a loop variable or a closure parameter re-uses the name of a   *)
-(* variable that is visible already (shadowing); a closure that names it captures the          *)
-(* outermost variable of that name instead of the innermost.  Used to LABEL a disagreement     *)
-(* (code 13).                                                                                  *)
+(* The class of the former finding R-4 (repaired by 53336fc): a loop variable or a closure      *)
+(* parameter re-uses the name of a variable that is visible already (shadowing); a closure     *)
+(* that named it captured the outermost variable of that name instead of the innermost.        *)
+(* Formerly used to LABEL a disagreement (code 13); no longer used by the checker.             *)
 (* ------------------------------------------------------------------------------------------ *)
 Fixpoint shadow_card (vis : list str) (c : card) {struct c} : bool :=
   let many := fix go (l : list card) : bool :=
